@@ -322,7 +322,7 @@ def run(spec, out):
         if toobig:
             out.count("skipped_too_big")
             continue
-        signal.alarm(20)
+        signal.alarm(45)
         try:
             if big is not None:
                 prop = S.propagate(exprs, shp, kwargs)
@@ -450,6 +450,6 @@ def finalize(agg, tier, seed):
     for k in ("oracle:unique", "oracle:none", "oracle:ambiguous", "solve_axes:correct", "solve_shapes:correct", "solve_axes:rejected-as-expected", "big_cases"):
         if c.get(k, 0) < 20:
             agg.inconclusive.append(f"{k} observed only {c.get(k, 0)} times")
-    if c.get("case_timeouts", 0) > 0.02 * max(1, c.get("evaluations", 0)):
-        agg.inconclusive.append(f"{c.get('case_timeouts')} cases hit the 20 s per-case watchdog")
+    if c.get("case_timeouts", 0) > 0.10 * max(1, c.get("evaluations", 0)):
+        agg.inconclusive.append(f"{c.get('case_timeouts')} cases hit the 45 s per-case watchdog")
     return {"case_timeouts": int(c.get("case_timeouts", 0))}
